@@ -7,6 +7,8 @@ pub mod c03;
 pub mod c04;
 pub mod c05;
 pub mod c06;
+#[cfg(feature = "net")]
+pub mod c12;
 pub mod c13;
 pub mod c14;
 #[cfg(feature = "net")]
@@ -22,6 +24,8 @@ pub fn dispatch(a: &Args) -> Option<Report> {
         "C04" => c04::run(a),
         "C05" => c05::run(a),
         "C06" => c06::run(a),
+        #[cfg(feature = "net")]
+        "C12" => c12::run(a),
         "C13" => c13::run(a),
         "C14" => c14::run(a),
         #[cfg(feature = "net")]
